@@ -22,6 +22,7 @@
 
 #include <cstdio>
 #include <new>
+#include <limits>
 
 #include "mp/sol-reader2.h"
 
@@ -69,6 +70,10 @@ inline NLW2_SOLReadResultCode Read(
       return NLW2_SOLRead_Bad_Line;
     auto el = strtod(s = se, &se);
     if (se <= s)
+      return NLW2_SOLRead_Bad_Line;
+    if (std::numeric_limits<El>::is_integer &&   // the cast would be undefined
+        !(el >= (double)std::numeric_limits<El>::min() &&
+          el <= (double)std::numeric_limits<El>::max()))
       return NLW2_SOLRead_Bad_Line;
     v.second = (El)el;
   }
